@@ -10,6 +10,7 @@ from .values import (Agg, Enum, Ptr, Seq, BStr, FnItem, Coro, UNIT, Panic, Unwin
                      project, update, merge_val, val_eq, is_abnormal)
 from .decls import SourceIndex, ImplInfo, span_text, parse_impl_header, BUILTIN_ENUMS, EnumDecl
 
+PROGRESS = bool(os.environ.get('MIRSYM_PROGRESS'))
 F64 = z3.Float64()
 F32 = z3.Float32()
 RNE = z3.RNE()
@@ -544,6 +545,10 @@ class Interp:
             key = (fr.fn.crate, m.group(1))
             if key in self.p.allocs:
                 return st.ref(bstr(self.p.allocs[key]))
+            t = m.group(2)
+            if t.startswith('&') and re.fullmatch(r'&[\w:]+', t):
+                # pointer to a zero-sized static (lazy_static! handle, unit struct)
+                return st.ref(Agg(self._canon(fr.fn.crate, t[1:]), ()))
             raise Unsupported('const alloc ' + c)
         m = re.search(r'::promoted\[(\d+)\]$', c)
         if m:
@@ -889,6 +894,9 @@ class Interp:
         f = fr.fn
         while True:
             self.blocks += 1
+            if PROGRESS and self.blocks % 20000 == 0:
+                import sys
+                print(f'  [mirsym] blocks={self.blocks} queries={self.nqueries} solver={self.tsolve:.1f}s merges={self.merged} in {f.name[-60:]}', file=sys.stderr, flush=True)
             n = fr.visits.get(bb, 0) + 1
             fr.visits[bb] = n
             if n > self.unwind:
